@@ -10,6 +10,12 @@ def _obj(cls, **attrs):
     return t
 
 
+def _tagged(tag, role):
+    t = TOpaque(tag)
+    t.role = role
+    return t
+
+
 NS = {
     'Int': INT, 'Real': REAL, 'Bool': BOOL,
     'Arr1': TArr('float', 1), 'Arr2': TArr('float', 2), 'Arr3': TArr('float', 3),
@@ -19,6 +25,7 @@ NS = {
     'NoneType': TOpaque('none'), 'Opaque': TOpaque('opaque'), 'Callable': TOpaque('callable'),
     'Gen': TOpaque('gen'), 'Seed': TOpaque('seed'), 'Obj': _obj, 'Str': TOpaque('str'),
     'IntOrNone': TOpaque('int_or_none'), 'DictIv': TOpaque('dict_iv'),
+    'Callables': lambda role: _tagged('callables', role), 'DictCall': lambda role: _tagged('dictcall', role),
 }
 
 
